@@ -68,6 +68,12 @@ def make_cases(tier, seed, n_random=None, maxlen=None):
             # - a weight must be a function of the token SEQUENCE (strengthened after seeded change C03-6)
             cases.append(dict(name=name + "#cat", g=_cat_terminals(g, ints=bool(i % 2)), sr=srs[i % len(srs)], rename="id", order=None,
                               maxlen=bound(tier, g, maxlen), part="all"))
+        if i < 20 or (tier != "quick" and i % 10 == 0):
+            # structured tokens: (word, tag) pairs are terminals like any other - a tuple argument is ONE token, not a sequence
+            # (strengthened after seeded change C03-7)
+            tup = {a: ("w", k) for k, a in enumerate(sorted(g.V))}
+            gt = type(g)(g.S, frozenset(tup.values()), [(w, h, tuple(tup.get(y, y) for y in b)) for w, h, b in g.rules])
+            cases.append(dict(name=name + "#tup", g=gt, sr=srs[i % len(srs)], rename="id", order=None, maxlen=bound(tier, g, maxlen), part="all"))
         if name in MAXPLUS_CORPUS or (tier != "quick" and name.startswith("rand") and n_mp < 40):
             n_mp += name.startswith("rand")
             # small units of work: a case that runs into the per-case timeout is reported undecided
